@@ -14,7 +14,8 @@
      cadd(n, isdefault, starting, defname, desc, fac, cb, r, delegated, in = [n, desc, r, fac, cb])   a ComponentContext's add call and the
                                                    context-level call it delegated to (recorded within it)
      csvc(func, name, action, r, delegated, in = [func, name, action, r])   the same for ComponentContext.start_service_task
-   all but exit.begin with post = << [c, st, res = <<t, n, vid, gen>>.., fac = <<t, n, fid>>..] .. >> for every context.
+   new, enter, exit.end, add, addfac, get, getall also carry task and cur (the context current for the task when the call returned;
+   0 none, -1 not known); all but exit.begin with post = << [c, st, res = <<t, n, vid, gen>>.., fac = <<t, n, fid>>..] .. >> for every context.
    "other" = the call ended in a way the specification does not describe (a factory that raised, a cancellation): nothing
    is concluded from the result, the state must be unchanged.  The verdict names the property (or properties) of the first failing clause. *)
 EXTENDS Ctx, TLCExt, Json, IOUtils, FiniteSetsExt
@@ -22,8 +23,8 @@ Traces == JsonDeserialize(IOEnv.TRACE_FILE)
 SuiteTypes == {"T0", "T1", "T2", "T3", "T4", "T5", "T6", "T7", "T8", "T9", "T10", "T11", "T12"}
 SuiteNames == {"N1", "N2", "N3", "N4", "N5", "N6", "N7", "N8", "N9", "N10", "N11", "N12", "N13", "N14", "N15", "N16"}
 Huge == 1000000
-VARIABLES tid, l, ok, why, at, live, vbind, fbind, hits
-tvars == <<tid, l, ok, why, at, live, vbind, fbind, hits>>
+VARIABLES tid, l, ok, why, at, live, vbind, fbind, hits, stack
+tvars == <<tid, l, ok, why, at, live, vbind, fbind, hits, stack>>
 
 E == Traces[tid].events[l]
 Real(b, id) == IF \E p \in b : p[1] = id THEN (CHOOSE p \in b : p[1] = id)[2] ELSE -1
@@ -46,8 +47,25 @@ EvsOk(evs, exp, c, desc) ==
         /\ evs[i].src = c /\ exp[i].c = c
         /\ ToSet(evs[i].ts) = exp[i].types /\ evs[i].n = exp[i].name /\ evs[i].fac = exp[i].fac /\ evs[i].desc = desc
 
-Judge(w, hit) == /\ ok' = (w = "") /\ why' = w /\ at' = (IF w = "" THEN at ELSE l) /\ live' = live /\ hits' = hits \cup {hit}
-Outside(reason) == /\ live' = FALSE /\ why' = reason /\ at' = l /\ UNCHANGED <<core, obs, ok, vbind, fbind, hits>>
+(* Current context (Cur.tla at the grain of recorded calls): per task, the stack of contexts it has entered and not left. A task
+   seen for the first time starts with what it reports (inherited from its spawner); -2 = not known. Every recorded call reports
+   the context current for its task when it returns: it has to be the top of that task's stack.                            *)
+Unknown == -2
+Before(t, cur, entering) == IF t \in DOMAIN stack THEN stack[t] ELSE IF entering THEN <<Unknown>> ELSE <<cur>>
+Top(s) == IF s = <<>> THEN Unknown ELSE s[Len(s)]
+StackAfter ==
+  LET t == E.task IN
+  \* (cc: the acted-on context, a component context counting as the context it is a view of - as cur does)
+  IF E.ev = "enter" /\ E.r = "ok" THEN Append(Before(t, E.cur, TRUE), E.cc)
+  ELSE IF E.ev = "exit.end" THEN (LET b == Before(t, E.cur, TRUE) IN IF Top(b) = E.cc THEN SubSeq(b, 1, Len(b) - 1) ELSE <<Unknown>>)
+  ELSE Before(t, E.cur, FALSE)
+HasWhere == E.ev \in {"new", "enter", "exit.end", "add", "addfac", "get", "getall"}
+CurWhy == IF HasWhere /\ E.cur # -1 /\ Top(StackAfter) # Unknown /\ E.cur # Top(StackAfter)
+          THEN "C12,C02,C04:current-context-of-the-task-is-not-the-innermost-context-it-entered-and-has-not-left" ELSE ""
+Judge(w, hit) == LET w2 == IF w = "" THEN CurWhy ELSE w IN
+                 /\ ok' = (w2 = "") /\ why' = w2 /\ at' = (IF w2 = "" THEN at ELSE l) /\ live' = live /\ hits' = hits \cup {hit}
+                 /\ stack' = IF HasWhere THEN [x \in DOMAIN stack \cup {E.task} |-> IF x = E.task THEN StackAfter ELSE stack[x]] ELSE stack
+Outside(reason) == /\ live' = FALSE /\ why' = reason /\ at' = l /\ UNCHANGED <<core, obs, ok, vbind, fbind, hits, stack>>
 PostVerdict(w, c, own, other) ==
   IF w = "" THEN "" ELSE IF w = "state" THEN "C13:state-of-a-context-differs" ELSE IF w = "own" THEN own ELSE other
 
@@ -81,7 +99,8 @@ StepAdd ==
   ELSE /\ AddRes(c, ts, E.n, "none", E.flaw)
        /\ vbind' = IF obs'.r = "ok" THEN vbind \cup {<<obs'.v, E.vid>>} ELSE vbind
        /\ fbind' = fbind
-       /\ Judge(IF StateClash(obs'.r, E.r) THEN "C13:add_resource-state-check"
+       /\ Judge(IF E.r # "ok" /\ PostWhy(E.post, cstate, res, fac, vbind, fbind, c) \in {"own", "other"} THEN "C03:failed-add-changed-the-context"
+                ELSE IF StateClash(obs'.r, E.r) THEN "C13:add_resource-state-check"
                 ELSE IF obs'.r # E.r THEN "C03:add_resource-result"
                 ELSE IF ~EvsOk(E.evs, obs'.ev, c, E.desc) THEN "C18:add_resource-events"
                 ELSE PostVerdict(PostWhy(E.post, cstate', res', fac', vbind', fbind, c), c,
@@ -95,7 +114,8 @@ StepAddFac ==
   ELSE /\ AddFac(c, ts, E.n, E.async, E.flaw)
        /\ fbind' = IF obs'.r = "ok" THEN fbind \cup {<< <<"f", c, ts, E.n, E.async>>, E.fid, E.desc >>} ELSE fbind
        /\ vbind' = vbind
-       /\ Judge(IF StateClash(obs'.r, E.r) THEN "C13:add_resource_factory-state-check"
+       /\ Judge(IF E.r # "ok" /\ PostWhy(E.post, cstate, res, fac, vbind, fbind, c) \in {"own", "other"} THEN "C03:failed-add-changed-the-context"
+                ELSE IF StateClash(obs'.r, E.r) THEN "C13:add_resource_factory-state-check"
                 ELSE IF obs'.r # E.r THEN "C03:add_resource_factory-result"
                 ELSE IF ~EvsOk(E.evs, obs'.ev, c, E.desc) THEN "C18:add_resource_factory-events"
                 ELSE PostVerdict(PostWhy(E.post, cstate', res', fac', vbind, fbind', c), c,
@@ -151,13 +171,13 @@ StepCSvc ==
            ELSE IF E.in.action # E.action THEN "C08:teardown-action-changed-between-the-component-and-the-context"
            ELSE IF E.in.r # E.r THEN "C08:outcome-of-the-delegated-start-not-passed-on"
            ELSE "", "csvc")
-TInit == /\ tid \in 1..Len(Traces) /\ l = 1 /\ ok = TRUE /\ why = "" /\ at = 0 /\ live = TRUE /\ vbind = {} /\ fbind = {} /\ hits = {}
+TInit == /\ tid \in 1..Len(Traces) /\ l = 1 /\ ok = TRUE /\ why = "" /\ at = 0 /\ live = TRUE /\ vbind = {} /\ fbind = {} /\ hits = {} /\ stack = <<>>
          /\ cstate = [c \in Ctxs |-> "unborn"] /\ parent = [c \in Ctxs |-> 0]
         /\ res = [c \in Ctxs |-> [k \in Keys |-> NoneR]] /\ fac = [c \in Ctxs |-> [k \in Keys |-> NoneR]]
         /\ td = [c \in Ctxs |-> <<>>] /\ ending = [c \in Ctxs |-> ""] /\ regs = 0 /\ obs = [a |-> "init"]
 TNext ==
   /\ l <= Len(Traces[tid].events) /\ l' = l + 1 /\ UNCHANGED tid
-  /\ IF ~ok \/ ~live THEN UNCHANGED <<core, obs, ok, why, at, live, vbind, fbind, hits>>
+  /\ IF ~ok \/ ~live THEN UNCHANGED <<core, obs, ok, why, at, live, vbind, fbind, hits, stack>>
      ELSE CASE E.ev = "new" -> StepNew
             [] E.ev = "enter" -> StepEnter
             [] E.ev = "exit.begin" -> StepExitBegin
